@@ -1,6 +1,6 @@
 import SimuVerif.Lemmas.RemeshTranslate
 import SimuVerif.Lemmas.C14_RemeshStages
-import SimuVerif.Properties.C14Pipeline
+import SimuVerif.Lemmas.C14_RemeshBridge
 /-
   C14 — remeshing inside the assembled iteration: `local_mesh_refiner::refine_mesh` commutes with translations.
 
@@ -196,6 +196,34 @@ theorem cellRunR_observables (fn : Fn R) (fx : FX R) (K : ConstsR R) (n : Nat) (
       | none => rfl
       | some n => simp only [Option.map_some, trNode_mom]
     · intro i hi; exact tr_posOf t hi
+
+/-- **the model without remeshing is the special case**: for a state `s` of Model/Pipeline.lean seen as a cell without released
+    slots (`ofState`, edge index `E`, any cached face geometry, `Slots.rest` = position of node 0), with the swap pass off, every
+    edge of `E` inside the band and `E` listing the hinges as a freshly generated edge set does (hypothesis of C02 `slots_fresh`),
+    one iteration of the model WITH remeshing is `Pipeline.cellIteration` — so the theorems of Properties/C14Pipeline.lean are
+    statements about `cellIterationR` on those states -/
+theorem cellIterationR_eq_cellIteration (fn : Fn R) (fx : FX R) (K : ConstsR R) (s : Pipeline.State R) (E : EdgeSet)
+    (g : Nat → V3 R × R) (n : Int)
+    (hsw : K.swapOn = false) (h0 : 0 < s.nn) (hrest : ∀ i, s.pos.rest i = s.pos.get 0)
+    (hE : E ≠ [])
+    (hband : ∀ e ∈ E, ¬ lmaxSq K < C11.len2 (ofState s E g n).cell e ∧ ¬ C11.len2 (ofState s E g n).cell e < lminSq K)
+    (hfuel : E.length + 1 ≤ K.maxIter)
+    (hH : (E.map fun e => (⟨e.n1, e.n2, e.f1.getD 0, e.f2.getD 0⟩ : Forces.EdgeRec)).map
+            (hingeOfEdge ((Pipeline.updateFaceTypes K.base s.faces).map fun f => ⟨true, f⟩))
+          = hingesSorted (Pipeline.updateFaceTypes K.base s.faces)) :
+    cellIterationR fn fx K (ofState s E g n)
+      = .ok (ofState (Pipeline.cellIteration fx K.base s) E
+               (fun i => faceGeom fx s.pos.get ((Pipeline.updateFaceTypes K.base s.faces).getD i ⟨0, 0, 0, 0⟩))
+               (if Gen.saveCond (Gen.fileNumber fn s.time K.samplingPeriod) n then Gen.fileNumber fn s.time K.samplingPeriod else n)) :=
+  PipelineR.cellIterationR_ofState fn fx K s E g n hsw h0 hrest hE hband hfuel hH
+
+/-- the band hypothesis from the domain test `inBand` of Model/Pipeline.lean (every edge of the index a side of a face) -/
+theorem band_of_inBand (K : ConstsR R) (s : Pipeline.State R) (E : EdgeSet) (g : Nat → V3 R × R) (n : Int)
+    (hlt : ∀ f ∈ s.faces, f.a < s.nn ∧ f.b < s.nn ∧ f.c < s.nn)
+    (hside : ∀ e ∈ E, ∃ f ∈ s.faces, (e.n1, e.n2) ∈ f.sides ∨ (e.n2, e.n1) ∈ f.sides)
+    (hin : Pipeline.inBand K.base s = true) :
+    ∀ e ∈ E, ¬ lmaxSq K < C11.len2 (ofState s E g n).cell e ∧ ¬ C11.len2 (ofState s E g n).cell e < lminSq K :=
+  PipelineR.band_of_inBand K s E g n hlt hside hin
 
 end iteration
 
